@@ -75,7 +75,7 @@ func C01(r *explore.Run) {
 	}
 	tokenSpaces(r, explore.Options{}, false, body)
 	corpusSpace(r, body)
-	grammarTreeSpace(r, body)
+	grammarTreeSpace(r, 3, body)
 }
 
 // ---------------------------------------------------------------------------
@@ -273,8 +273,8 @@ func init() {
 	Registry["C01"] = C01
 	Registry["C02"] = C02
 	// the grammar space for tree-based checks: every sentence through its entry points
-	grammarTreeSpace = func(r *explore.Run, body func(c *explore.Ctx, e *Entry, s string)) {
-		grammarSpace(r, "S4/grammar", 3, func(c *explore.Ctx, s *grammar.Sentence) {
+	grammarTreeSpace = func(r *explore.Run, base int, body func(c *explore.Ctx, e *Entry, s string)) {
+		grammarSpace(r, "S4/grammar", base, func(c *explore.Ctx, s *grammar.Sentence) {
 			text := s.Text()
 			c.Input(text)
 			c.Sample(s.Root + ": " + text)
